@@ -280,8 +280,6 @@ pub fn run(tier: Tier, seed: u64) -> i32 {
     evals.fetch_add(keys.len() as u64, Ordering::Relaxed);
 
     // (3) the server's own B: v = (T - g^b) * 3^-1 mod N makes into_proof produce B = T exactly
-    let b_priv = le32_from_u64(5);
-    let gb = U::from_u64(7).modpow(&U::from_u64(5), &n);
     let inv3 = U::from_u64(3).inv_prime(&n);
     let mut targets: Vec<([u8; 32], &str)> = vec![([0u8; 32], "T=0"), (le32_from_u64(1), "T=1"), (le32_from_u64(183), "T=183"), (n.sub(&U::from_u64(1)).to_le_padded::<32>(), "T=N-1")];
     for m in [1u32 << 31, 0x0000_FFFF, 0xFFFF_0000, 0x5555_5555, 0xAAAA_AAAA, u32::MAX - 1, u32::MAX >> 1] {
@@ -294,11 +292,15 @@ pub fn run(tier: Tier, seed: u64) -> i32 {
     }
     targets.push((refmodel::ctr_array::<32>(seed, "c04-T").map(|b| b & 0x7F), "T general"));
     let mut own_b = 0u64;
+    // the server's private key is any 32 bytes the RNG hands out: ordinary, and 0, 1, 2, all-ones, N-1, N, N+1
+    let b_privs: Vec<[u8; 32]> = vec![le32_from_u64(5), [0u8; 32], le32_from_u64(1), le32_from_u64(2), [0xFF; 32], n_plus(-1), n_plus(0), n_plus(1), refmodel::ctr_array::<32>(seed, "c04-own-b")];
+    for b_priv in b_privs {
+    let gb = U::from_u64(7).modpow(&U::from_le_bytes(&b_priv), &n);
     for (t, name) in &targets {
         let tt = U::from_le_bytes(t).rem(&n);
         let v = U::submod(&tt, &gb, &n).mulmod(&inv3, &n);
         // sanity of the steering in the reference model
-        if srp::server_public(&v, &U::from_u64(5), 7, &n) != tt {
+        if srp::server_public(&v, &U::from_le_bytes(&b_priv), 7, &n) != tt {
             mc::util::machinery_error("C04: steering of the server public key failed in the reference model");
         }
         let ver = SrpVerifier::from_database_values(ns("A"), v.to_le_padded::<32>(), [0u8; 32]);
@@ -348,6 +350,7 @@ pub fn run(tier: Tier, seed: u64) -> i32 {
                 }
             }
         }
+    }
     }
     report.count("server_own_key_cases", own_b);
     evals.fetch_add(own_b, Ordering::Relaxed);
